@@ -445,7 +445,7 @@ def bounded(tier, seed):
                 if f:
                     return n, f, {'lines': [l.decode('latin-1') for l in lines], 'script': list(script)}
     rnd = random.Random(seed)
-    for _ in range(400 if tier == 'thorough' else 80):
+    for _ in range(3000 if tier == 'thorough' else 80):
         lines = [rnd.choice(ALPHABET) for _ in range(rnd.randrange(4, 12))]
         script = rnd.choice(SCRIPTS)
         total = 1 + sum(len(l) + 2 for l in lines)
